@@ -94,11 +94,13 @@ class JsonUtil:
                 result[JsonUtil._key_to_str(key)] = JsonUtil.sanitize(subvalue)
             return result
         elif isinstance(value, str):
-            return str(value)
+            # Subclasses of str, int, and float (e.g. enums) may override
+            # __str__, __int__, and __float__
+            return str.__str__(value)
         elif isinstance(value, int):
-            return int(value)
+            return int.__int__(value)
         elif isinstance(value, float):
-            return float(value)
+            return float.__float__(value)
         else:
             raise TypeError('The value is not a JSON value')
 
@@ -114,7 +116,7 @@ class JsonUtil:
         if key.__class__ == str:
             return key
         elif isinstance(key, str):
-            return str(key)
+            return str.__str__(key)
         elif isinstance(key, bool):
             if bool(key):
                 return 'true'
